@@ -206,8 +206,16 @@ impl<T> Pool<T> {
         let obj = {
             let mut queue = inner.queue.lock().unwrap();
             // The queue can only be empty here if the pool has been closed
-            // (and cleared) after the permit was obtained.
-            queue.pop().ok_or(PoolError::Closed)?
+            // (and cleared) after the permit was obtained. An object found
+            // in the queue of a closed pool has been returned after `close()`
+            // and is about to be dropped by the thread returning it: it
+            // must not be handed out any more.
+            if inner.is_closed() {
+                None
+            } else {
+                queue.pop()
+            }
+            .ok_or(PoolError::Closed)?
         };
         #[cfg(deadpool_verif)]
         crate::verif::point("uget.popped");
@@ -257,8 +265,16 @@ impl<T> Pool<T> {
         let obj = {
             let mut queue = inner.queue.lock().unwrap();
             // The queue can only be empty here if the pool has been closed
-            // (and cleared) after the permit was obtained.
-            queue.pop().ok_or(PoolError::Closed)?
+            // (and cleared) after the permit was obtained. An object found
+            // in the queue of a closed pool has been returned after `close()`
+            // and is about to be dropped by the thread returning it: it
+            // must not be handed out any more.
+            if inner.is_closed() {
+                None
+            } else {
+                queue.pop()
+            }
+            .ok_or(PoolError::Closed)?
         };
         #[cfg(deadpool_verif)]
         crate::verif::point("uget.popped");
